@@ -46,14 +46,60 @@ class CurStateValueGet(Contract):
 
 @register
 class CurStateValueSet(Contract):
+    """current_state_value setter (C10): a mapped value is stored in the model's field, an unmapped
+    one raises InvalidStateValue and is NOT stored."""
+
     qualnames = [SMQ + "current_state_value@setter"]
-    inline = True
+    params = [("self", "StateMachine"), ("value", "Val")]
+    returns = "None"
+    raises = True
+    exc_classes = ["InvalidStateValue"]
+    modifies = ["Model.state"]
+    properties = ["C10", "C04"]
+
+    def pre(self, s, a):
+        f = dict(wf_world(s))
+        f["self-is-machine"] = a.self.e == W.SM
+        return f
+
+    def post(self, s0, s, a, r):
+        return {
+            "C10|only-mapped-values-are-stored": smap_has(s0, a.value.e),
+            "C10|the-models-field-holds-the-value": s["Model.state"] == z3.Store(s0["Model.state"], W.MODEL, a.value.e),
+        }
+
+    def exc_post(self, s0, s, a, x):
+        return {
+            "C10|raises-only-for-unmapped-values": z3.Not(smap_has(s0, a.value.e)),
+            "C10|an-unmapped-value-is-not-stored": s["Model.state"] == s0["Model.state"],
+        }
 
 
 @register
 class CurStateSet(Contract):
+    """current_state setter: stores the state's value through the value setter."""
+
     qualnames = [SMQ + "current_state@setter"]
-    inline = True
+    params = [("self", "StateMachine"), ("value", "State")]
+    returns = "None"
+    raises = True
+    exc_classes = ["InvalidStateValue"]
+    modifies = ["Model.state"]
+    properties = ["C10"]
+
+    pre = CurStateValueSet.pre
+
+    def post(self, s0, s, a, r):
+        v = s0.sel("State.value", a.value.e)
+        return {
+            "C10|only-mapped-values-are-stored": smap_has(s0, v),
+            "C10|the-models-field-holds-the-states-value": s["Model.state"] == z3.Store(s0["Model.state"], W.MODEL, v),
+        }
+
+    def exc_post(self, s0, s, a, x):
+        v = s0.sel("State.value", a.value.e)
+        return {"C10|raises-only-for-unmapped-values": z3.Not(smap_has(s0, v)),
+                "C10|an-unmapped-value-is-not-stored": s["Model.state"] == s0["Model.state"]}
 
 
 @register
@@ -70,14 +116,19 @@ class CurState(Contract):
     properties = ["C10"]
 
     def pre(self, s, a):
+        from .model import wf_cache, wf_class
         f = dict(wf_world(s))
+        f.update(wf_class(s))
         f["self-is-machine"] = a.self.e == W.SM
+        f["state-cache-wf"] = wf_cache(s)
         return f
 
     def post(self, s0, s, a, r):
+        from .model import wf_cache
         return {
-            "mapped": smap_has(s0, mstate(s0)),
-            "view-of-mapped-state": z3.And(valid_obj(s, r.e), s.sel("IState._state", r) == smap_val(s0, mstate(s0)),
+            "C10|state-cache-stays-wf": wf_cache(s),
+            "C10|mapped": smap_has(s0, mstate(s0)),
+            "C10|view-of-mapped-state": z3.And(valid_obj(s, r.e), s.sel("IState._state", r) == smap_val(s0, mstate(s0)),
                                            s.sel("IState._machine", r) == W.SM),
             "only-the-instance-cache-changes": z3.And(
                 others_kept("idict.has", s0, s, W.CACHE), others_kept("idict.val", s0, s, W.CACHE)),
@@ -85,6 +136,139 @@ class CurState(Contract):
 
     def exc_post(self, s0, s, a, x):
         return {
-            "unmapped": z3.Not(smap_has(s0, mstate(s0))),
+            "C10|unmapped-value-raises-InvalidStateValue": z3.Not(smap_has(s0, mstate(s0))),
             "nothing-changes": z3.And(s["idict.has"] == s0["idict.has"], s["idict.val"] == s0["idict.val"]),
         }
+
+
+# ---- State.for_instance / InstanceState ----------------------------------------------------------
+from pyvc.core import ClassModel, Py  # noqa: E402
+from pyvc.execu import GLOBAL_NAMES, builtin  # noqa: E402
+from pyvc.models import ctor_from_init, model  # noqa: E402
+from pyvc.execu import CallArgs  # noqa: E402
+from .model import C, INL  # noqa: E402
+
+STQ = "statemachine.state:"
+CLASSES["IState"].ctor = ctor_from_init(STQ + "InstanceState", "IState")
+GLOBAL_NAMES["InstanceState"] = Py(("class", "IState"))
+CLASSES["State"].methods["for_instance"] = C(STQ + "State.for_instance")
+
+
+@builtin("ref")
+def b_ref(ex, path, ca, node):
+    """weakref.ref(x): transparent while the referent is alive (DESIGN 2.3)."""
+    return [(path, ca.pos[0])]
+
+
+@register
+class ForInstance(Contract):
+    """State.for_instance(machine, cache): one InstanceState per (state, machine), cached."""
+
+    qualnames = [STQ + "State.for_instance"]
+    params = [("self", "State"), ("machine", "StateMachine"), ("cache", "idict[State,IState]")]
+    returns = "IState"
+    modifies = ["idict.has", "idict.val", "IState._state+", "IState._machine+"]
+    properties = ["C10"]
+
+    def pre(self, s, a):
+        from .model import wf_cache
+        f = dict(wf_world(s))
+        f["machine-and-its-cache"] = z3.And(a.machine.e == W.SM, a.cache.e == W.CACHE)
+        f["state-cache-wf"] = wf_cache(s)
+        return f
+
+    def post(self, s0, s, a, r):
+        from .model import wf_cache
+        return {
+            "C10|view-of-this-state-on-this-machine": z3.And(
+                valid_obj(s, r.e), s.sel("IState._state", r) == a.self.e, s.sel("IState._machine", r) == W.SM),
+            "C10|cached-under-the-state": z3.And(z3.Select(s.sel("idict.has", W.CACHE), a.self.e),
+                                                 z3.Select(s.sel("idict.val", W.CACHE), a.self.e) == r.e),
+            "C10|same-view-on-every-call": z3.Implies(z3.Select(s0.sel("idict.has", W.CACHE), a.self.e),
+                                                      r.e == z3.Select(s0.sel("idict.val", W.CACHE), a.self.e)),
+            "C10|state-cache-stays-wf": wf_cache(s),
+            "only-the-instance-cache-changes": z3.And(
+                others_kept("idict.has", s0, s, W.CACHE), others_kept("idict.val", s0, s, W.CACHE)),
+        }
+
+
+# ---- equality of states and is_active -------------------------------------------------------------
+@model
+def istate_machine_ref(ex, path, recv, ca, node):
+    return [(path, O(path.sel("IState._machine", recv.e), "StateMachine"))]
+
+
+CLASSES["IState"].methods["_machine"] = istate_machine_ref
+CLASSES["IState"].props["id"] = INL(STQ + "InstanceState.id")
+CLASSES["IState"].props["is_active"] = C(STQ + "InstanceState.is_active")
+CLASSES["State"].props["id"] = INL(STQ + "State.id")
+CLASSES["IState"].isinstance_of = lambda other: other in ("IState", "State", "InstanceState")
+GLOBAL_NAMES["State"] = Py(("class", "State"))
+
+
+def state_eq(ex, path, a, b):
+    """State.__eq__ / InstanceState.__eq__: the REAL bodies, executed in place."""
+    q = STQ + ("InstanceState.__eq__" if a.cls == "IState" else "State.__eq__")
+    outs = ex.call_inline(path, q, a, CallArgs([b], {}))
+    res = []
+    for p, r in outs:
+        if isinstance(r, Raise):
+            res.append((p, r))
+        else:
+            from pyvc.core import truth_of
+            res.append((p, truth_of(p, r)))
+    return res
+
+
+CLASSES["State"].eq_fn = state_eq
+CLASSES["IState"].eq_fn = state_eq
+
+
+def same_state(s, x, y):
+    """What State.__eq__ decides: same name and same id."""
+    return z3.And(s.sel("State.name", x) == s.sel("State.name", y), s.sel("State._id", x) == s.sel("State._id", y))
+
+
+@register
+class IsActive(Contract):
+    """InstanceState.is_active (C10): true exactly for the state the stored value is mapped to —
+    hence exactly one state is active at any time."""
+
+    qualnames = [STQ + "InstanceState.is_active"]
+    params = [("self", "IState")]
+    returns = "bool"
+    raises = True
+    exc_classes = ["InvalidStateValue"]
+    modifies = ["idict.has", "idict.val", "IState._state+", "IState._machine+"]
+    properties = ["C10"]
+
+    def pre(self, s, a):
+        from .model import wf_cache, wf_class
+        f = dict(wf_world(s))
+        f.update(wf_class(s))
+        f["state-cache-wf"] = wf_cache(s)
+        f["a-view-of-a-mapped-state-of-this-machine"] = z3.And(
+            s.sel("IState._machine", a.self.e) == W.SM,
+            smap_has(s, s.sel("State.value", s.sel("IState._state", a.self.e))),
+            smap_val(s, s.sel("State.value", s.sel("IState._state", a.self.e))) == s.sel("IState._state", a.self.e))
+        return f
+
+    def post(self, s0, s, a, r):
+        mine = s0.sel("IState._state", a.self.e)
+        cur = smap_val(s0, mstate(s0))
+        return {
+            "C10|active-iff-equal-to-the-current-state": r.e == same_state(s0, cur, mine),
+            "C10|exactly-the-mapped-state-is-active": z3.Implies(states_distinguishable(s0), r.e == (cur == mine)),
+        }
+
+    def exc_post(self, s0, s, a, x):
+        return {"C10|raises-only-when-the-stored-value-is-unmapped": z3.Not(smap_has(s0, mstate(s0)))}
+
+
+def states_distinguishable(s):
+    """WF(cls): two different states of the class never share both name and id (ids are the
+    attribute names, unique in a class body)."""
+    v1, v2 = z3.Const("v1!sd", Int), z3.Const("v2!sd", Int)
+    return z3.ForAll([v1, v2], z3.Implies(
+        z3.And(smap_has(s, v1), smap_has(s, v2), same_state(s, smap_val(s, v1), smap_val(s, v2))),
+        smap_val(s, v1) == smap_val(s, v2)))
